@@ -338,6 +338,7 @@ func init() {
 
 	registerNumberStubs(reg)
 	registerSyncStubs(reg)
+	registerConcIntrinsics(reg)
 }
 
 func (x *Exec) freshVar(kind string, s Sort) *Term {
